@@ -157,6 +157,50 @@ public class BigNat {
         return nat(x);
     }
 
+    public static Value BitAnd(final Value a, final Value b) {
+        return nat(big(a).and(big(b)));
+    }
+
+    public static Value BitOr(final Value a, final Value b) {
+        return nat(big(a).or(big(b)));
+    }
+
+    public static Value BitXor(final Value a, final Value b) {
+        return nat(big(a).xor(big(b)));
+    }
+
+    public static Value ShrBits(final Value a, final Value n) {
+        return nat(big(a).shiftRight(in(n)));
+    }
+
+    public static Value LowBits(final Value a, final Value n) {
+        return nat(big(a).mod(BigInteger.ONE.shiftLeft(in(n))));
+    }
+
+    public static Value RotR(final Value a, final Value k, final Value n) {
+        final int nn = in(n);
+        final int kk = ((in(k) % nn) + nn) % nn;
+        final BigInteger mask = BigInteger.ONE.shiftLeft(nn).subtract(BigInteger.ONE);
+        final BigInteger x = big(a).and(mask);
+        return nat(x.shiftRight(kk).or(x.shiftLeft(nn - kk).and(mask)));
+    }
+
+    public static Value IRoot(final Value a, final Value k) {
+        final BigInteger x = big(a);
+        final int kk = in(k);
+        BigInteger lo = BigInteger.ZERO;
+        BigInteger hi = BigInteger.ONE.shiftLeft(x.bitLength() / kk + 1);
+        while (lo.add(BigInteger.ONE).compareTo(hi) < 0) {
+            final BigInteger mid = lo.add(hi).shiftRight(1);
+            if (mid.pow(kk).compareTo(x) <= 0) {
+                lo = mid;
+            } else {
+                hi = mid;
+            }
+        }
+        return nat(lo);
+    }
+
     public static Value DivMod(final Value a, final Value m) {
         final BigInteger[] qr = big(a).divideAndRemainder(big(m));
         return new TupleValue(new Value[] {nat(qr[0]), nat(qr[1])});
